@@ -7,6 +7,7 @@
 //   - constant tables, string constants, switch tables (GenTables.v),
 //   - lock programs of the registries, receiver/global write sets, map ranges and
 //     panic-capable sites (GenStruct.v).
+//
 // Agreement lemmas in coq/theories/Agree/*.v tie those to the hand-written model.
 package main
 
